@@ -5,6 +5,7 @@ import (
 	"encoding/json"
 	"fmt"
 	"os"
+	"strings"
 
 	textwire "github.com/textwire/textwire/v2"
 	"github.com/textwire/textwire/v2/lexer"
@@ -373,7 +374,8 @@ func lexFamily(raw json.RawMessage) Result {
 		if c.MustErr {
 			res.Stats["nontrivial"] = 1
 			if len(errs) == 0 {
-				res.Status, res.Kind, res.Msg = "viol", "missing-error", "unterminated construct accepted without an error"
+				res.Status, res.Kind = "viol", "missing-error"
+				res.Msg = "accepted without an error although the specification requires one (" + strings.Join(c.Tags, ", ") + ")"
 			}
 		}
 	default:
